@@ -629,7 +629,7 @@ func ruleOp2Table(p *Prog, r *Result) {
 			}
 		}
 		// anything else must be text cut out of the query (words, numbers, quoted literals: WORDRESET)
-		if dataV != nil && p.derivesFromField(dataV, "Lexer", "Query", traceOpts{}) {
+		if dataV != nil && p.derivesFromField(dataV, "Lexer", "Query", traceOpts{IntoReturns: true, MaxDepth: 2}) {
 			return
 		}
 		r.hit(fmt.Sprintf("tok|unclassified#%d", n), p.InstrPos(al), "a token literal in the scanner is neither a constant operator, string(char), string(prev)+c, nor text cut out of the query")
